@@ -247,6 +247,9 @@ func classifyLoop(p *Prog, fn *ssa.Function, li *loopInfo, pf map[*ssa.Function]
 					continue
 				}
 				if dependsOnCall(ex.cond, c, li, map[ssa.Value]bool{}) {
+					if pos := errorGoesRound(c, li); pos != nil {
+						return "", "the loop is driven by " + calleeShort(&c.Call) + ", whose error is sticky (a source that has failed keeps failing), and a path on which that error is not nil goes round the loop again (through " + blockPos(p, pos) + "): a source that keeps failing keeps the loop spinning for ever"
+					}
 					return "L4 source-driven", "an exit condition depends on the result of " + calleeShort(&c.Call) + ", executed on every trip (each call consumes input or reports a sticky end/error)"
 				}
 			}
@@ -385,6 +388,9 @@ func classifyLoop(p *Prog, fn *ssa.Function, li *loopInfo, pf map[*ssa.Function]
 		if isPhi && flag.Block() == li.header && contOnTrue && !contOnFalse {
 			if why, ok := cutUntilNotFound(flag, li); ok {
 				return "L8 cut until not found", why
+			}
+			if why, ok := indexUntilNotFound(flag, li); ok {
+				return "L9 index until not found", why
 			}
 		}
 	}
@@ -863,4 +869,180 @@ func cutUntilNotFound(more *ssa.Phi, li *loopInfo) (string, bool) {
 		return fmt.Sprintf("the loop goes on while Cut finds the separator in %s and continues with what follows it: each further trip starts with a strictly shorter text", phiName(sph)), true
 	}
 	return "", false
+}
+
+// indexUntilNotFound: more is a header phi fed round the loop by `idx >= 0` where idx is strings.Index*/bytes.Index* of
+// a header phi `rest`, and on every way round the loop on which more is true rest continues with rest[idx+k:], k ≥ 1
+// (where more is false the value of rest does not matter: the loop ends).
+func indexUntilNotFound(more *ssa.Phi, li *loopInfo) (string, bool) {
+	for i, e := range more.Edges {
+		if !li.blocks[li.header.Preds[i]] {
+			continue
+		}
+		bo, ok := e.(*ssa.BinOp)
+		if !ok {
+			return "", false
+		}
+		var idx ssa.Value
+		switch {
+		case bo.Op == token.GEQ && isZeroConst(bo.Y):
+			idx = bo.X
+		case bo.Op == token.LEQ && isZeroConst(bo.X):
+			idx = bo.Y
+		case bo.Op == token.NEQ || bo.Op == token.GTR:
+			if c, isC := constInt(bo.Y); isC && c == -1 {
+				idx = bo.X
+			}
+		}
+		call, ok := idx.(*ssa.Call)
+		if !ok {
+			return "", false
+		}
+		switch calleeName(&call.Call) {
+		case "strings.IndexByte", "strings.Index", "strings.IndexRune", "strings.IndexAny", "bytes.IndexByte", "bytes.Index", "bytes.IndexRune", "bytes.IndexAny":
+		default:
+			return "", false
+		}
+		rest, ok := call.Call.Args[0].(*ssa.Phi)
+		if !ok || rest.Block() != li.header {
+			return "", false
+		}
+		// every in-loop value of rest is rest itself (not found: the loop ends) or rest[idx+k:]
+		shrinks := false
+		seen := map[ssa.Value]bool{}
+		var okVal func(v ssa.Value) bool
+		okVal = func(v ssa.Value) bool {
+			if seen[v] {
+				return true
+			}
+			seen[v] = true
+			switch x := v.(type) {
+			case *ssa.Phi:
+				if x == rest {
+					return true
+				}
+				for _, pe := range x.Edges {
+					if !okVal(pe) {
+						return false
+					}
+				}
+				return true
+			case *ssa.Slice:
+				if x.X != ssa.Value(rest) || x.High != nil || x.Low == nil {
+					return false
+				}
+				lb, isB := x.Low.(*ssa.BinOp)
+				if !isB || lb.Op != token.ADD {
+					return false
+				}
+				if k, isC := constInt(lb.Y); isC && k >= 1 && lb.X == ssa.Value(call) {
+					shrinks = true
+					return true
+				}
+				return false
+			}
+			return false
+		}
+		for j, se := range rest.Edges {
+			if !li.blocks[li.header.Preds[j]] {
+				continue
+			}
+			if !okVal(se) {
+				return "", false
+			}
+		}
+		if !shrinks {
+			return "", false
+		}
+		return fmt.Sprintf("the loop goes on while the separator is found in %s and continues with what follows it: each further trip starts with a strictly shorter text", phiName(rest)), true
+	}
+	return "", false
+}
+
+// errorGoesRound: the call returns an error, the loop tests it against nil, and from the edge on which it is not nil
+// the head of the loop can be reached again.  Returns a block on such a path (nil when there is none, or no such test).
+func errorGoesRound(c *ssa.Call, li *loopInfo) *ssa.BasicBlock {
+	ei := errResultIndex(c.Call.Signature())
+	if ei < 0 {
+		return nil
+	}
+	var errv ssa.Value
+	if c.Call.Signature().Results().Len() == 1 {
+		errv = c
+	} else {
+		for _, r := range *c.Referrers() {
+			if ex, ok := r.(*ssa.Extract); ok && ex.Index == ei {
+				errv = ex
+			}
+		}
+	}
+	if errv == nil {
+		return nil
+	}
+	// values the error is copied into on the way (named results, phis)
+	same := map[ssa.Value]bool{errv: true}
+	for changed := true; changed; {
+		changed = false
+		for b := range li.blocks {
+			for _, ins := range b.Instrs {
+				if ph, ok := ins.(*ssa.Phi); ok && !same[ph] {
+					all := len(ph.Edges) > 0
+					for _, e := range ph.Edges {
+						if !same[e] {
+							all = false
+						}
+					}
+					if all {
+						same[ph] = true
+						changed = true
+					}
+				}
+			}
+		}
+	}
+	for b := range li.blocks {
+		iff, ok := b.Instrs[len(b.Instrs)-1].(*ssa.If)
+		if !ok {
+			continue
+		}
+		bo, ok := iff.Cond.(*ssa.BinOp)
+		if !ok || (bo.Op != token.NEQ && bo.Op != token.EQL) {
+			continue
+		}
+		var tested ssa.Value
+		if isNilConst(bo.Y) {
+			tested = bo.X
+		} else if isNilConst(bo.X) {
+			tested = bo.Y
+		}
+		if tested == nil || !same[tested] {
+			continue
+		}
+		start := b.Succs[0]
+		if bo.Op == token.EQL {
+			start = b.Succs[1]
+		}
+		if !li.blocks[start] {
+			continue
+		}
+		seen := map[*ssa.BasicBlock]bool{}
+		work := []*ssa.BasicBlock{start}
+		for len(work) > 0 {
+			x := work[len(work)-1]
+			work = work[:len(work)-1]
+			if seen[x] {
+				continue
+			}
+			seen[x] = true
+			if x == li.header {
+				return start
+			}
+			for _, s := range x.Succs {
+				if li.blocks[s] {
+					work = append(work, s)
+				}
+			}
+		}
+	}
+	return nil
 }
